@@ -113,3 +113,8 @@ Qed.
 Definition res_of (o : outcome (Z * Z)) : outcome Z :=
   match o with Ok (v, e) => if e =? 0 then Ok v else Err e | Err _ => Panic | Panic => Panic end.
 Definition ret (v e : Z) : outcome Z := if e =? 0 then Ok v else Err e.
+
+Lemma min_int_Zmin : forall a b, min_int a b = Z.min a b.
+Proof. intros. unfold min_int. destruct (a >? b) eqn:E; lia. Qed.
+Lemma max_int_Zmax : forall a b, max_int a b = Z.max a b.
+Proof. intros. unfold max_int. destruct (a <? b) eqn:E; lia. Qed.
